@@ -393,6 +393,13 @@ def _mask_arrays(res, case, m):
     return data, int(bb.ixmin), int(bb.iymin)
 
 
+def _exact_kwargs(cfg):
+    import json
+    import zlib
+    h = zlib.crc32(json.dumps({k: cfg[k] for k in ('shape', 'r', 'rx', 'ry', 'theta', 'phase') if k in cfg}, sort_keys=True, default=str).encode()) % 4
+    return [{}, {'subpixels': 1}, {'subpixels': 3}, {'subpixels': 50}][h]
+
+
 def check_exact(res, trk, cfg, vias=('to_mask', 'kernel')):
     rx, ry, th = _params(cfg)
     cx, cy = cfg['phase']
@@ -434,7 +441,11 @@ def check_exact(res, trk, cfg, vias=('to_mask', 'kernel')):
                 m0 = _build(cfg).to_mask(mode='exact')
                 if m0.data.flags.writeable:
                     m0.data[...] = -7.0
-            m = _build(cfg).to_mask(mode='exact')
+            # the exact mode has no sampling parameter: whatever ``subpixels`` the caller also passes (by a hash of
+            # the configuration: nothing, 1, 3 or 50) the mask holds the exact overlap areas
+            kw = _exact_kwargs(cfg)
+            res.axis('exact_call_subpixels', str(kw.get('subpixels', 'default')))
+            m = _build(cfg).to_mask(mode='exact', **kw)
         except Exception as exc:
             res.violation(ID, 'unexpected_exception', _case(cfg, 'to_mask'), f"to_mask('exact') raised {type(exc).__name__}: {exc}")
             return
